@@ -214,6 +214,7 @@ def run(ctx):
     res = [x for x in pmap(one, jobs) if x]
     two_versions(ctx, home, bases[:(3 if quick else 20)], quick)
     fixed_pairs(ctx, home)
+    nested_wrappers(ctx, home, quick)
     seen = set()
     for x in res:
         if x["edit"] not in seen and len(seen) < 8:
@@ -306,6 +307,83 @@ def fixed_pairs(ctx, home):
             ctx.violation("breaking-accepted:%s" % name, "fixed pair %s: a documented breaking change is accepted (rc=%s)" % (name, v["rc"]), case)
         else:
             shutil.rmtree(cdir, ignore_errors=True)
+
+
+def nested_wrappers(ctx, home, quick):
+    """the documented classes below one, two and three levels of optional / vector / stream wrappers ("yardl recursively detects changes"):
+    every chain of wrappers x every position (record field, stream items, plain step, alias) x leaf edits of the classes whose verdict the
+    documentation fixes - primitive <-> primitive and number <-> string (partial: accepted with a warning), scalar -> vector and a changed
+    generic type argument (incompatible: rejected with an error that carries the version label)"""
+    chains = [c for n in (1, 2, 3) for c in __import__("itertools").product("ov", repeat=n) if "oo" not in "".join(c)]
+    if quick:
+        chains = [c for c in chains if len(c) < 3 or c in (("o", "v", "o"), ("v", "o", "v"), ("v", "v", "o"))]
+    leaves = [("number->number", "int", "long", evo.PARTIAL), ("number->number", "float", "double", evo.PARTIAL), ("number<->string", "int", "string", evo.PARTIAL),
+              ("number<->string", "string", "double", evo.PARTIAL), ("scalar->vector", "int", "int*", evo.BREAKING), ("scalar->vector", "string", "string[2]", evo.BREAKING),
+              ("type-argument", "Slot<int>", "Slot<float>", evo.BREAKING), ("type-argument", "Slot<string>", "Slot<Other>", evo.BREAKING), ("unchanged", "int", "int", "clean")]
+    head = "Slot<T>: !record\n  fields:\n    v: T\n    n: uint8\nOther: !record\n  fields:\n    o: string\n"
+
+    def wrap(leaf, chain):
+        t = leaf
+        for w in reversed(chain):     # chain[0] is the outermost wrapper
+            if w == "o" and t.endswith("?"):
+                return None
+            t = t + ("?" if w == "o" else "*")
+        return t
+
+    def model(t, pos):
+        if pos == "field":
+            return head + "R: !record\n  fields:\n    a: string\n    f: %s\nP: !protocol\n  sequence:\n    r: R\n    tail: int\n" % t
+        if pos == "stream":
+            return head + "P: !protocol\n  sequence:\n    s: !stream\n      items: %s\n    tail: int\n" % t
+        if pos == "step":
+            return head + "P: !protocol\n  sequence:\n    first: uint\n    s: %s\n" % t
+        return head + "Al: %s\nR: !record\n  fields:\n    f: Al\nP: !protocol\n  sequence:\n    r: R\n    a: !stream\n      items: Al\n" % t
+
+    jobs = [(i, c, pos, leaf) for i, (c, pos, leaf) in enumerate((c, pos, leaf) for c in chains for pos in ("field", "stream", "step", "alias") for leaf in leaves)]
+
+    def one(job):
+        ji, chain, pos, (name, lo, ln, expect) = job
+        to, tn = wrap(lo, chain), wrap(ln, chain)
+        if to is None or tn is None:
+            return
+        cdir = os.path.join(ctx.workdir, "cases", "nested_%d_%s_%s" % (ji, "".join(chain), pos))
+        shutil.rmtree(cdir, ignore_errors=True)
+        common.write_tree(cdir, {"old/_package.yml": "namespace: Evo\n", "old/m.yml": model(to, pos),
+                                 "new/_package.yml": "namespace: Evo\nversions:\n  v0: ../old\n", "new/m.yml": model(tn, pos)})
+        po = cli.run_cli("validate", os.path.join(cdir, "old"), home)
+        if po.rc != 0:
+            ctx.count("nested.not-applicable")       # the wrapped type is not a valid model by itself
+            shutil.rmtree(cdir, ignore_errors=True)
+            return
+        p = cli.run_cli("validate", os.path.join(cdir, "new"), home)
+        ctx.ev(2)
+        v = verdict(p)
+        depth = len(chain) + (1 if pos == "stream" else 0)
+        ctx.case(("nested", chain, pos, lo, ln))
+        ctx.count("nested.depth%d.%s" % (depth, expect))
+        what = "%s (%s -> %s) below the wrappers %s of a %s" % (name, to, tn, "/".join({"o": "optional", "v": "vector"}[w] for w in chain), pos)
+        case = {"case_dir": cdir, "stderr": cli.clean(p.stderr)[-1200:]}
+        bad = True
+        if v["panic"]:
+            ctx.violation("panic@%s" % v["panic"], "%s: crash" % what, case)
+        elif v["rc"] not in (0, 1):
+            ctx.violation("exit%s" % v["rc"], "%s: exit status %s" % (what, v["rc"]), case)
+        elif expect == "clean" and (v["rc"] != 0 or v["errors"] or v["warnings"]):
+            ctx.violation("not-clean:nested", "%s: identical versions give rc=%s %s" % (what, v["rc"], (v["errors"] + v["warnings"])[:1]), case)
+        elif expect == evo.BREAKING and v["rc"] != 1:
+            ctx.violation("breaking-accepted:nested:%s" % name, "%s: documented breaking change accepted (rc=%s, warnings=%d)" % (what, v["rc"], len(v["warnings"])), case)
+        elif expect == evo.BREAKING and not any("[v0]" in e for e in v["errors"]):
+            ctx.violation("no-version-label:nested:%s" % name, "%s: rejected but no error carries the version label: %s" % (what, v["errors"][:2]), case)
+        elif expect == evo.PARTIAL and v["rc"] != 0:
+            ctx.violation("rejected:partial:nested:%s" % name, "%s: documented partially compatible change rejected: %s" % (what, v["errors"][:2]), case)
+        elif expect == evo.PARTIAL and not v["warnings"]:
+            ctx.violation("no-warning:nested:%s" % name, "%s: partially compatible change accepted without a warning" % what, case)
+        else:
+            bad = False
+        if not bad:
+            shutil.rmtree(cdir, ignore_errors=True)
+
+    pmap(one, jobs)
 
 
 def replay(ctx, path):
